@@ -101,6 +101,8 @@ LenDoc == Arr(<<S(<<>>), S(<<233, 128512>>), Arr(<<>>), Arr(<<IntV(1), IntV(2), 
 QuerySet ==
   CASE Universe = "cmp-pairs" -> {F(ECmp(op, At1(x_), At1(y_))) : op \in Ops}
     [] Universe = "cmp-lits" -> {F(ECmp(op, At1(x_), OLit(l))) : op \in Ops, l \in Lits} \cup {F(ECmp(op, OLit(l), At1(x_))) : op \in Ops, l \in Lits}
+                                \* a literal against a literal (booleans and their number look-alikes): decided by the same comparison, not by the host's equality
+                                \cup {F(ECmp(op, OLit(l1), OLit(l2))) : op \in {"==", "!=", "<="}, l1 \in {IntV(1), Bool(TRUE), IntV(0), Bool(FALSE)}, l2 \in {IntV(1), Bool(TRUE), Bool(FALSE), Null}}
     [] Universe = "cmp-self" -> {F(ECmp(op, Self, OLit(l))) : op \in Ops, l \in Lits} \cup {F(ECmp(op, OLit(l), Self)) : op \in Ops, l \in Lits}
                                 \cup {F(ETest(QAt(<<>>))), F(ENot(ETest(QAt(<<>>))))}
     [] Universe = "cmp-root" -> {FC(ECmp(op, RootK, At1(y_))) : op \in Ops} \cup {FC(ECmp(op, At1(y_), RootK)) : op \in Ops}
